@@ -79,6 +79,14 @@ OptCallEffect(maxIter, fixFirst, np) ==
 OptCall(maxIter, fixFirst, verbose, st, np) ==                   \* `verbose` occurs in no primed expression
   OptCallEffect(maxIter, fixFirst, np) /\ obs' = [op |-> "OptCall", rep |-> Outcome(st, 0, maxIter)]
 
+\* ---------- optimize() that does NOT return: a user-defined edge raises while iteration k is being assembled ----------
+\* The exception reaches the caller.  What is left behind is the state of a call cut after k-1 complete iterations: the flag of the first vertex
+\* was set before anything else (fix_first_pose), the free vertices carry the updates of the complete iterations (all of an iteration's updates or
+\* none: the assembly precedes them), fixed vertices and everything else are untouched - and since there is no state but this one, the session
+\* continues from it like from any other state.
+OptAbortEffect(fixFirst, np) == OptCallEffect(1, fixFirst, np)
+OptAbort(fixFirst, np) == OptAbortEffect(fixFirst, np) /\ obs' = [op |-> "OptAbort"]
+
 \* ---------- g := Graph.from_g2o(file written by g.to_g2o(file)): the session continues on the re-imported graph ----------
 \* What the file format carries decides the effect (the meaning of the numbers is G2O's business):
 \*  - it has NO field for the `fixed` flag: every vertex of the re-imported graph is free (keep = FALSE).  No listed property speaks about
@@ -114,7 +122,7 @@ FixedFrozen == [][status = "ready" => /\ SameShape
                                       /\ obs'.op \notin {"SetPose", "Reload"} => \A i \in DOMAIN verts : verts'[i].fixed => verts'[i].pose = verts[i].pose]_vars
 \* flags are only ever changed by SetFixed, or set (never cleared) on the first vertex by optimize
 FlagsRule == [][status = "ready" /\ obs'.op # "SetFixed" =>
-                 \A i \in DOMAIN verts : verts'[i].fixed = verts[i].fixed \/ (obs'.op = "OptCall" /\ i = 1 /\ verts'[i].fixed)
+                 \A i \in DOMAIN verts : verts'[i].fixed = verts[i].fixed \/ (obs'.op \in {"OptCall", "OptAbort"} /\ i = 1 /\ verts'[i].fixed)
                                                                         \/ (obs'.op = "Reload" /\ ~verts'[i].fixed)]_vars
 \* edges, ids, kinds and orders never change after construction -- except that a file round trip drops the edges no writer exists for
 \* and may change number tokens, and that the user's SetMeas changes the number token of one edge
@@ -124,7 +132,7 @@ StructureFrozen == [][status = "ready" => /\ SameShape /\ status' = status
                                              ELSE IF obs'.op = "SetMeas" THEN Skeleton(edges') = Skeleton(edges)
                                              ELSE edges' = edges]_vars
 \* poses are written by the optimizer (free vertices only), by a file round trip and by the user's SetPose - by nothing else
-PosesRule == [][status = "ready" /\ obs'.op \notin {"OptCall", "Reload", "SetPose"} => \A i \in DOMAIN verts : verts'[i].pose = verts[i].pose]_vars
+PosesRule == [][status = "ready" /\ obs'.op \notin {"OptCall", "OptAbort", "Reload", "SetPose"} => \A i \in DOMAIN verts : verts'[i].pose = verts[i].pose]_vars
 QueriesPure == [][obs'.op \in Queries => UNCHANGED <<verts, edges, status>>]_vars
 \* every accepted edge is attached to the vertices whose ids it names, whatever the list order
 BoundById == status = "ready" => \A n \in DOMAIN edges : \A j \in DOMAIN edges[n].vids :
